@@ -288,8 +288,14 @@ def r_id(e, R):
                         okb = False
                         for n in cfg_nodes(e, f, r):
                             for t in g2.nodes:
-                                if t.kind == "test" and isinstance(t.ast, ast.Attribute) and errattrs and t.ast.attr == errattrs[0] and g2.on_branch(n, t, "F"):
-                                    okb = True
+                                if t.kind != "test":
+                                    continue
+                                x, flip = (t.ast.operand, True) if isinstance(t.ast, ast.UnaryOp) and isinstance(t.ast.op, ast.Not) else (t.ast, False)
+                                nt = none_test(x)
+                                if nt and isinstance(nt[0], ast.Attribute) and errattrs and nt[0].attr == errattrs[0]:
+                                    none_lab = "F" if (nt[1] == "T") != flip else "T"
+                                    if g2.on_branch(n, t, none_lab):
+                                        okb = True
                         R.check(okb, "R-ID", f"{f.short}: set_result only when the result item carries no exception", f.short, norm(r),
                                 "a failed task can be resolved with a value", e.loc(f, r))
     R.check(found, "R-ID", "manager: results are routed by popping the pending table", "manager", "pending.pop(result.work_id)",
